@@ -55,6 +55,7 @@ DS9_LINES = [
     'image; ellipse(5,6,3,2,30) # fill=1 dash=1',
     'image; box(7,8,4,3,45)',
     'image; polygon(1,1,5,1,3,6) # tag={t1} tag={t2}',
+    'image; circle(4,5,2) # tag={ grp A } text={ padded }',
     'image; annulus(10,10,2,5)',
     'image; ellipse(10,10,2,1,4,3,20)',
     'image; box(10,10,2,1,4,3,20)',
